@@ -152,3 +152,35 @@ PLANS['C09'] = dict(
          'while a sibling under the same required prefix stays; distinct = distinct op-kind sequences.',
     assumptions=_REG_ASSUME,
 )
+
+
+def _flav_jobs(tier, quick, thorough):
+    return cfg_jobs(tier, quick, thorough, [('adapter', {'ZMON_FLAVOUR': 'adapter'}), ('verifying', {'ZMON_FLAVOUR': 'verifying'})])
+
+
+PLANS['C05'] = dict(
+    engine='registry', level='exploration', jobs=lambda tier: _flav_jobs(tier, (2, 60), (6, 800)),
+    minimums=lambda t: dict([('probes', 8000), ('answers_changed_by_mutation', 300), ('cache_hits_confirmed', 4000)] +
+                            [('changed[%s]' % k, 5) for k in ('register', 'unregister', 'subscribe', 'unsubscribe',
+                                                              'registry_bases', 'spec_bases', 'class_declaration', 'object_declaration')]),
+    rule='Histories interleaving all nine lookup entry points with all eight mutation kinds (register/unregister/subscribe/'
+         'unsubscribe on any registry of the chain, registry __bases__, required-interface __bases__, class declarations, '
+         'object declarations); after every mutation every remembered key and fresh keys are asked of the warm registry and '
+         'of a cold registry built by replaying the full mutation log; answers must be identical (values by identity, sequences '
+         'in order).  Non-trivial: a mutation changed the cold answer of a key that had been looked up before; distinct = '
+         'distinct mutation-kind sequences.  pair[entry,kind] counters give the crossing matrix.',
+    assumptions=_REG_ASSUME + ['re-basing is confined to the required-interface family (the source documents that provided __iro__ changes are not tracked)'],
+)
+PLANS['C06'] = dict(
+    engine='registry', level='exploration', jobs=lambda tier: _flav_jobs(tier, (2, 100), (6, 1200)),
+    minimums=lambda t: {'ro_invariant_checks': 3000, 'behaviour_probes': 8000, 'rebasings': 300,
+                        'rebasings_changing_a_descendant_chain': 60, 'probes_answered_by_an_ancestor': 500,
+                        'components_probes': 500, 'components_rebasings': 100},
+    rule='Registry DAGs (1-5 members, chains and diamonds, one flavour per world) with distinguishing registrations and '
+         'subscriptions in every member; random __bases__ reassignments of any member and registrations in any member; after '
+         'every step, from EVERY member: registry.ro must equal the C3 order of the current __bases__ graph, and lookup / '
+         'lookupAll names / subscriptions must equal the C04/C07 reference model evaluated over that C3 order; the same for '
+         'Components.__bases__ with utilities.  Non-trivial: a re-basing changed the chain of a strict descendant; '
+         'distinct = distinct (flavour, op sequence, final base lists).',
+    assumptions=_REG_ASSUME + ['registry base lists are kept C3-consistent (a mirrored Python class graph refuses the others)'],
+)
